@@ -261,7 +261,15 @@ def write_replay(pid, n, events, meta):
     return p
 
 
-def write_evidence(pid, tier, seed, coverage, wall, violations, assumptions, level="model_checking"):
+def write_evidence(pid, tier, seed, coverage, wall, violations, assumptions, level="model_checking", outdir=None):
+    global EVID
+    if outdir:
+        os.makedirs(outdir, exist_ok=True)
+        ev = dict(property_id=pid, tier=tier, seed=seed, level=level, coverage=coverage,
+                  assumptions=assumptions, wall_s=round(wall, 2), violations=violations)
+        with open(os.path.join(outdir, pid + ".json"), "w") as f:
+            json.dump(ev, f, indent=1)
+        return
     os.makedirs(EVID, exist_ok=True)
     ev = dict(property_id=pid, tier=tier, seed=seed, level=level, coverage=coverage,
               assumptions=assumptions, wall_s=round(wall, 2), violations=violations)
